@@ -49,6 +49,7 @@ def generate(st):
         'index_name': sw.choice([None, None, None, 'date', 'obs', 'mixed']),
         'unordered': sw.random() < 0.3,        # a version need not list its observation dates in ascending order
         'stamp_offset': sw.choice([0, 0, 0, 0, 3600, 86400, 300 * 86400]),     # publishers may stamp ahead of the clock
+        'ints_first': sw.choice([1, 2, 99]),     # with 'ints': only the first publication(s) are integer series, revisions need not be whole
         'obs_base': sw.choice(['past', 'past', 'past', 'straddle', 'future']),     # where the observation dates lie relative to the stamps
         'mirror': sw.random() < 0.25,          # a second, independent store receives every version right after the first
         'branching': sw.random() < 0.3,        # a second consumer keeps an earlier store object and catches up later
@@ -76,8 +77,10 @@ def generate(st):
             ids = [i for i in range(n) if g.random() >= cfg['p_partial']] or [g.randrange(n)]
         vals = []
         for i in ids:
-            if cfg['ints'] and cfg['p_nan'] == 0.0:
-                vals.append([i, int(g.choice(cfg['values']))])
+            if cfg['ints'] and (cfg['p_nan'] == 0.0 or cfg.get('ints_first', 99) < 99) and n_pub < cfg.get('ints_first', 99):
+                vals.append([i, int(g.choice(cfg['values']))])        # whole numbers, published as an integer series
+            elif cfg['ints'] and cfg.get('ints_first', 99) < 99 and g.random() < 0.5:
+                vals.append([i, enc(g.choice([2.5, 7.5, 100.25, 3.75]))])     # ... later revised to values that are not whole
             else:
                 vals.append([i, enc(NAN) if g.random() < cfg['p_nan'] else enc(g.choice(cfg['values']))])
         if cfg.get('unordered') and g.random() < 0.6:
